@@ -70,6 +70,20 @@ def run(F, rep, tier):
     sh = [c for c in h.calls if c.is_(rt.TX + "synthetic_head")]
     ok = len(sh) == 1 and "call:get_heads" in h.origins(sh[0].args[2], through_calls=PASS_THROUGH)
     rep.check(ok, "hello_head|synthetic-of-committed-heads", "K6 provenance", "hello_head = synthetic_head(storage, policy_store, storage.get_heads())", site=h.site())
+    # ... on every path: each successful return is this call's synthetic_head result, never remembered state
+    stale = []
+    for st in pat.ok_returns(h):
+        og = set()
+        for o in st.operands():
+            og |= h.origins(o, through_calls=PASS_THROUGH)
+        if "call:synthetic_head" not in og:
+            stale.append("%s:%d" % (h.file, st.line))
+    # a tail call `synthetic_head(..)` (the Result returned unchanged) has no Ok aggregate at all
+    rep.check(not stale, "hello_head|computed-on-every-path", "K6 provenance",
+              "every successful return of hello_head is the synthetic_head computed from get_heads() in the same call",
+              "hello_head can return an address that was not computed from the current committed heads in this call (%s): a remembered value cannot be shown to match the "
+              "current head set (e.g. after the graph was removed and re-created), so two replicas with the same heads may advertise different hello heads and a needed sync can be suppressed" % ", ".join(stale),
+              h.site())
     rt.rule_fold_siblings(F, rep)
     rt.rule_headset(F, rep)
     rt.rule_vm_merge(F, rep)
